@@ -54,16 +54,16 @@ Print Assumptions C11_snapshot_stable_later.
 
 (* Clause 2 on the state: in every reachable state an update requested without persistence, or
    answered with an error, leaves the stored data (nil, or the value of the stored list) as it was *)
-Theorem C11_no_persist : forall grow ops remote persist wire u c,
+Theorem C11_no_persist : forall grow ops remote persist rb wire u c,
   repaired ops = true ->
   let s := fst (run grow init ops) in
-  In (Res c) (snd (step grow s (Update remote persist wire u))) ->
+  In (Res c) (snd (step grow s (Update remote persist rb wire u))) ->
   persist = false \/ c = 1%N ->
-  sval (cur (fst (step grow s (Update remote persist wire u)))) = sval (cur s).
+  sval (cur (fst (step grow s (Update remote persist rb wire u)))) = sval (cur s).
 Proof.
-  intros grow ops remote persist wire u c Hrep s Hin Hcase.
+  intros grow ops remote persist rb wire u c Hrep s Hin Hcase.
   destruct (run_inv grow ops init Inv_init eq_refl Hrep) as [HI Hfx].
-  exact (update_keeps_store grow s remote persist wire u HI Hfx c Hin Hcase).
+  exact (update_keeps_store grow s remote persist rb wire u HI Hfx c Hin Hcase).
 Qed.
 Print Assumptions C11_no_persist.
 
@@ -118,11 +118,11 @@ Print Assumptions C11_wiring_uniform.
 (* ---- the pinned code (fixed = false) violates both sentences ---- *)
 Definition cell3 (a b c : Z) : cell := [of_z a; of_z b; of_z c].
 Definition full_upd (wire : N) (l : list cell) : op :=
-  Update false true wire {| u_new := l; u_fp := None; u_fd := None |}.
+  Update false true true wire {| u_new := l; u_fp := None; u_fd := None |}.
 Definition sel_upd (remote persist : bool) (wire : N) (k : Z) (l : list cell) : op :=
-  Update remote persist wire {| u_new := l; u_fp := Some {| f_sel := Some [of_z k]; f_elems := None |}; u_fd := None |}.
+  Update remote persist true wire {| u_new := l; u_fp := Some {| f_sel := Some [of_z k]; f_elems := None |}; u_fd := None |}.
 Definition partial_upd (wire : N) (l : list cell) : op :=
-  Update false true wire {| u_new := l; u_fp := Some {| f_sel := None; f_elems := None |}; u_fd := None |}.
+  Update false true true wire {| u_new := l; u_fp := Some {| f_sel := None; f_elems := None |}; u_fd := None |}.
 
 (* type 1 = billConstraintsListData (three numeric fields, identifier = field 0, selector on it).
    A FeatureRemote: full update, DataCopy, then a selector update WITHOUT persistence: the
@@ -145,11 +145,25 @@ Print Assumptions C11_pinned_payload_refuted.
 
 (* a non-persisting update on an empty store turns nil into an empty data object *)
 Definition c11_witness_nil (fx : bool) : list op :=
-  [Init 1 2 fx no_quirks; Snapshot; Update false false 0 {| u_new := [cell3 2 1 1]; u_fp := None; u_fd := None |}].
+  [Init 1 2 fx no_quirks; Snapshot; Update false false true 0 {| u_new := [cell3 2 1 1]; u_fp := None; u_fd := None |}].
 Theorem C11_pinned_nil_refuted :
   strictly_accepted (judge minit sinit (snd (run go_grow init (c11_witness_nil false)))) = false.
 Proof. vm_compute. reflexivity. Qed.
 Print Assumptions C11_pinned_nil_refuted.
+
+(* the same defect when the store is NOT read back in between (rb = false: no DataCopy after the
+   update): the judgement waits for the next read-back; a persisted partial update, then a
+   selector update without persistence, both unobserved, then DataCopy *)
+Definition quiet (o : op) : op :=
+  match o with Update r p _ w u => Update r p false w u | _ => o end.
+Definition c11_witness_unobserved (fx : bool) : list op :=
+  [Init 1 2 fx no_quirks; full_upd 0 [cell3 2 1 1; cell3 3 1 1]; Snapshot;
+   quiet (sel_upd false false 0 3 [cell3 0 5 0]); Snapshot].
+Theorem C11_pinned_unobserved_refuted :
+  strictly_accepted (judge minit sinit (snd (run go_grow init (c11_witness_unobserved false)))) = false /\
+  strictly_accepted (judge minit sinit (snd (run go_grow init (c11_witness_unobserved true)))) = true.
+Proof. vm_compute. split; reflexivity. Qed.
+Print Assumptions C11_pinned_unobserved_refuted.
 
 (* the same histories on the repaired code, every step strictly accepted; the observations show
    what is shared without harm: the DataCopy result (object 2) lives in the array of the stored
@@ -172,7 +186,7 @@ Example C11_nonvacuous :
               full_upd 0 [cell3 3 1 1; cell3 2 1 1];
               partial_upd 0 [cell3 4 2 2; cell3 1 9 9];
               partial_upd 0 [cell3 0 6 0];
-              Update false true 0 {| u_new := []; u_fp := None; u_fd := Some {| f_sel := Some [of_z 3]; f_elems := None |} |};
+              Update false true true 0 {| u_new := []; u_fp := None; u_fd := Some {| f_sel := Some [of_z 3]; f_elems := None |} |};
               Snapshot] in
   map (fun x => store_of (snd x)) (snd (run go_grow init ops)) =
     [[]; [Some [cell3 3 1 1; cell3 2 1 1]];
